@@ -25,9 +25,9 @@ func sharedEngine(p *Prog) *Engine {
 
 func init() {
 	register("C03", &propDef{
-		Level: "other",
+		Level:   "other",
 		Explain: "Complete enumeration of the panic-capable SSA instructions in every function reachable from the exported API (nil dereference, nil-map write, type assertion, index/slice bounds, integer division, explicit panic, calls into the standard library), each discharged by a sound static argument or reported with its file:line. Nil-ness is decided by an abstract interpreter over the whole call graph (finite domains: nil-ness, struct shapes derived from the construction sites, small constant sets; trace partitioning; inlining of non-recursive calls; context-free summaries at recursion boundaries). Bounds are decided by entailment between linear inequalities (dominating branch conditions, SSA definitions, memory versioning by mod-sets, stdlib contracts, Houdini-inferred object invariants and cursor contracts) using Fourier–Motzkin elimination. Nothing is executed; no input value is ever represented. Not claimed: stack exhaustion from nesting depth and memory exhaustion (C14).",
-		Run:   rulesC03,
+		Run:     rulesC03,
 		Trusted: []string{"go/ssa lowering", "the stdlib contract table (no-panic entries and result contracts of regexp, strings, sort, errors, fmt)", "Go semantics of nil slices/maps (reads are safe) and of the sort.Slice index contract"},
 	})
 }
